@@ -171,3 +171,34 @@ Proof.
     + left. rewrite C. reflexivity.
 Qed.
 Print Assumptions c09_demux_local.
+
+(* ---- the delay before a locally opened reliable tube's id is reused (property anchor "delayed reaping").
+   The opener frees the id reap_delay = 4*RTT(opener) after its tube closed; the acceptor's old tube lives at most
+   last_ack_duration = 4*RTT(acceptor) after it sent its FIN.  If the acceptor's estimate is not larger than the
+   opener's — in particular when both still have the initial 333 ms — the predecessor is gone when the id can be
+   handed out again, even if the opener's final ACK was lost.  (Changing either constant, or capping the reap
+   delay below 4*333 ms, breaks this: driver classes mux-reap-delay and net-reopen-after-lost-final-ack.) *)
+Theorem c09_reap_delay_covers_peer_lastack : forall ta tc rtt_acceptor rtt_opener : N,
+  ta <= tc -> rtt_acceptor <= rtt_opener -> predecessor_gone_at_reuse ta tc rtt_acceptor rtt_opener.
+Proof. exact reap_delay_covers. Qed.
+Print Assumptions c09_reap_delay_covers_peer_lastack.
+
+Example c09_reap_delay_initial_estimates : forall ta tc, ta <= tc ->
+  predecessor_gone_at_reuse ta tc mux_initial_rtt mux_initial_rtt.
+Proof. intros. apply reap_delay_covers; auto. apply N.le_refl. Qed.
+
+(* a reap delay capped at one second would not cover the peer's 1.332 s *)
+Example c09_reap_delay_capped_at_1s_too_short :
+  ~ (0 + last_ack_duration mux_initial_rtt <= 0 + N.min (reap_delay mux_initial_rtt) 1000000000).
+Proof. vm_compute. intros H. apply H. reflexivity. Qed.
+
+(* ---- and it does NOT hold when the estimates differ the other way (open finding
+   C09:id-reused-while-peer-in-lastack-asymmetric-rtt): the opener has measured the minimum RTT, the acceptor still
+   has the initial estimate; 20 ms after closing the opener may reuse the id while the predecessor stays in
+   lastAck for 1.332 s. *)
+Theorem c09_reap_delay_asymmetric_refuted :
+  exists ta tc rtt_acceptor rtt_opener : N, ta <= tc /\ mux_min_rtt <= rtt_opener /\
+    ~ predecessor_gone_at_reuse ta tc rtt_acceptor rtt_opener.
+Proof. exists 0, 0, mux_initial_rtt, mux_min_rtt. split; [apply N.le_refl|]. split; [apply N.le_refl|].
+  vm_compute. intros H. apply H. reflexivity. Qed.
+Print Assumptions c09_reap_delay_asymmetric_refuted.
